@@ -70,6 +70,54 @@ def model_to_dict(m, limit=60):
     return out
 
 
+_IGNORED_KINDS = None
+
+
+def symbols_of(f, cache):
+    """names of the uninterpreted constants / functions occurring in f"""
+    k = f.get_id()
+    if k in cache:
+        return cache[k]
+    out = set()
+    seen = set()
+    stack = [f]
+    while stack:
+        t = stack.pop()
+        i = t.get_id()
+        if i in seen:
+            continue
+        seen.add(i)
+        if z3.is_app(t):
+            d = t.decl()
+            if d.kind() == z3.Z3_OP_UNINTERPRETED:
+                out.add(d.name())
+            stack.extend(t.children())
+        elif z3.is_quantifier(t):
+            stack.append(t.body())
+    cache[k] = out
+    return out
+
+
+def relevant_slice(fs, goal, rounds):
+    """assumptions within `rounds` steps of symbol sharing from the goal (a subset: proving the
+    goal from it is sound)"""
+    cache = {}
+    syms = set(symbols_of(goal, cache))
+    chosen = [False] * len(fs)
+    for _ in range(rounds):
+        new = set()
+        for i, a in enumerate(fs):
+            if not chosen[i]:
+                sa = symbols_of(a, cache)
+                if sa & syms or not sa:
+                    chosen[i] = True
+                    new |= sa
+        if not new - syms:
+            break
+        syms |= new
+    return [a for i, a in enumerate(fs) if chosen[i]]
+
+
 def discharge(obl, timeout_ms=10000, axioms=(), want_model=True, try_cvc5=True):
     """z3 first for container VCs; cvc5 first for float-model VCs (mixed integer/real linear
     arithmetic with tiny coefficients, where z3's simplex stalls and cvc5 answers in
@@ -80,6 +128,22 @@ def discharge(obl, timeout_ms=10000, axioms=(), want_model=True, try_cvc5=True):
         return Result(obl.name, obl.kind, 'unsat', 'simplifier', time.time() - t0, line=obl.line,
                       fn=obl.fn, case=obl.case)
     fs, goal = formulas_for(obl, axioms)
+    # first attempts: slices of the assumptions by symbol relevance (sound: fewer assumptions)
+    if len(fs) > 60 and os.environ.get('PYVC_SLICE'):
+        for rounds in (1, 2, 3):
+            sub = relevant_slice(fs, goal, rounds)
+            if len(sub) >= 0.8 * len(fs):
+                break
+            ss = z3.Solver()
+            for f in sub:
+                ss.add(f)
+            ss.add(z3.Not(goal))
+            st_, _, _ = run_z3_text(ss.to_smt2(), min(3000, timeout_ms), False)
+            if st_ == 'unsat':
+                return Result(obl.name, obl.kind, 'unsat', 'z3', time.time() - t0, line=obl.line,
+                              fn=obl.fn, case=obl.case, size=len(sub),
+                              detail='proved from %d of %d assumptions (relevance slice, %d rounds)'
+                              % (len(sub), len(fs), rounds))
     s = z3.Solver()
     for f in fs:
         s.add(f)
